@@ -29,7 +29,7 @@ type c18Case struct {
 func init() {
 	engine.Register(&engine.Check{
 		ID: "C18", Level: "exploration",
-		Rule:        "d in 0..15 x float lattice (every float with <=7 (quick) / <=9 (thorough) significant mantissa bits and exponent in [-70,70] / [-100,100], both signs; 8 decimal mantissas x 10^-8..10^12) placed in points; for every d in 0..15 and m in [-30,30] the decimal tie (m+1/2)*10^-d rounded to float64 and its +-1,+-2 ulp neighbours; 10^k-eps values, +-0, min denormal, 1e300; x one valid geometry per kind in XY/XYZ/XYM/XYZM (WKT) and XY/XYZ/XYZM (GeoJSON, without bbox and with bbox in both option orders) filled from the tie values. Oracle: every emitted number matches -?digits(.digits{1,d})? with no trailing zero; as an exact rational it differs from the exact input ordinate by <= 1/2*10^-d; the output parses (wkt.Unmarshal / JSON) to the same type, structure and number of ordinates; bbox numbers likewise against the exact min/max. distinct_nontrivial = distinct (codec, geometry, d, bbox) tuples Also: LinearRing values given to the WKT encoder directly (closed in X,Y only, fully closed, open) and polygon rings whose closing position carries its own M.",
+		Rule:        "d in 0..15 x float lattice (every float with <=7 (quick) / <=9 (thorough) significant mantissa bits and exponent in [-70,70] / [-100,100], both signs; 8 decimal mantissas x 10^-8..10^12) placed in points; for every d in 0..15 and m in [-30,30] the decimal tie (m+1/2)*10^-d rounded to float64 and its +-1,+-2 ulp neighbours; 10^k-eps values, +-0, min denormal, 1e300; x one valid geometry per kind and six geometries with empty members (MultiPoint with an empty point in the middle / at the end, MultiLineString and MultiPolygon with an empty member, empty LineString and Polygon) in XY/XYZ/XYM/XYZM (WKT) and XY/XYZ/XYZM (GeoJSON, without bbox and with bbox in both option orders) filled from the tie values. Every encode under test is the second call of a two-call history whose first call fails after partial output. Oracle: every emitted number matches -?digits(.digits{1,d})? with no trailing zero; as an exact rational it differs from the exact input ordinate by <= 1/2*10^-d; the output parses (wkt.Unmarshal / JSON) to the same type, structure and number of ordinates; bbox numbers likewise against the exact min/max. distinct_nontrivial = distinct (codec, geometry, d, bbox) tuples Also: LinearRing values given to the WKT encoder directly (closed in X,Y only, fully closed, open) and polygon rings whose closing position carries its own M.",
 		Run:         c18Run,
 		Replay:      func(c *engine.Ctx, kind string, raw json.RawMessage) { c18Exec(c, decodeCase[c18Case](raw)) },
 		Assumptions: []string{"finite ordinates; math/big decimal parsing exact"},
@@ -93,10 +93,14 @@ func c18Exec(c *engine.Ctx, cs c18Case) {
 	fail := func(what, desc string) { c.Violate(key+"/"+what, desc+" model="+g.String(), "c18", cs) }
 	t := g.MustBuild()
 	want := ordinatesOf(g)
+	if len(want) == 0 && cs.BBox != 0 {
+		return // the quantifier asks for a bounding box for non-empty geometries only
+	}
 	switch cs.Codec {
 	case "wkt":
 		var s string
 		var err error
+		failWKT(cs.D) // two-call history: a failed encode first (see poison.go)
 		if p, _ := engine.Guard(func() { s, err = wkt.Marshal(t, wkt.EncodeOptionWithMaxDecimalDigits(cs.D)) }); p != nil {
 			fail("panic", fmt.Sprintf("panic %v", p))
 			return
@@ -143,6 +147,7 @@ func c18Exec(c *engine.Ctx, cs c18Case) {
 		}
 		var data []byte
 		var err error
+		failGeoJSON(opts...) // two-call history: a failed encode first
 		if p, _ := engine.Guard(func() { data, err = geojson.Marshal(t, opts...) }); p != nil {
 			fail("panic", fmt.Sprintf("panic %v", p))
 			return
@@ -170,8 +175,14 @@ func c18Exec(c *engine.Ctx, cs c18Case) {
 				return
 			}
 		}
-		rg, rerr := ref.ParseGeoJSON(data)
-		if rerr != nil || rg.Kind != g.Kind || !sameStructure(rg, g) {
+		if c18HasEmptyMember(g) {
+			var sb strings.Builder
+			jsonShape(doc["coordinates"], &sb)
+			if ty, _ := doc["type"].(string); ty != g.Kind.String() || sb.String() != modelShape(g) {
+				fail("structure", fmt.Sprintf("output %s has type %q and nesting %s, the geometry is a %s with nesting %s", clipStr(string(data), 200), ty, sb.String(), g.Kind, modelShape(g)))
+				return
+			}
+		} else if rg, rerr := ref.ParseGeoJSON(data); rerr != nil || rg.Kind != g.Kind || !sameStructure(rg, g) {
 			fail("structure", fmt.Sprintf("output %s reads as a different type/structure: %v %v", clipStr(string(data), 200), rg, rerr))
 			return
 		}
@@ -283,7 +294,92 @@ func c18Shapes(l geom.Layout, next func() ref.F) []*ref.G {
 		{Kind: ref.MultiPoint, Layout: l, C1: []ref.C{co(), co()}},
 		{Kind: ref.MultiLineString, Layout: l, C2: [][]ref.C{{co(), co()}, {co(), co(), co()}}},
 		{Kind: ref.MultiPolygon, Layout: l, C3: [][][]ref.C{{ring()}, {ring()}}},
+		// empty members: the text must stay well formed around them (EMPTY in WKT, [] in JSON)
+		{Kind: ref.MultiPoint, Layout: l, C1: []ref.C{co(), nil, co()}},
+		{Kind: ref.MultiPoint, Layout: l, C1: []ref.C{co(), co(), nil}},
+		{Kind: ref.MultiLineString, Layout: l, C2: [][]ref.C{{co(), co()}, {}, {co(), co()}}},
+		{Kind: ref.MultiPolygon, Layout: l, C3: [][][]ref.C{{ring()}, {}, {ring(), ring()}}},
+		{Kind: ref.LineString, Layout: l, C1: []ref.C{}},
+		{Kind: ref.Polygon, Layout: l, C2: [][]ref.C{}},
 	}
+}
+
+// c18HasEmptyMember: shapes whose JSON form contains an empty array where RFC 7946 wants a
+// position or a member; the independent reader is not asked about those, the nesting of the
+// emitted arrays is compared with the model directly.
+func c18HasEmptyMember(g *ref.G) bool {
+	for _, c := range g.C1 {
+		if c == nil && g.Kind == ref.MultiPoint {
+			return true
+		}
+	}
+	for _, x := range g.C2 {
+		if len(x) == 0 {
+			return true
+		}
+	}
+	for _, x := range g.C3 {
+		if len(x) == 0 {
+			return true
+		}
+	}
+	return (g.Kind == ref.LineString && len(g.C1) == 0) || (g.Kind == ref.Polygon && len(g.C2) == 0)
+}
+
+// jsonShape renders the nesting of a decoded JSON array: numbers as 'n', arrays bracketed.
+func jsonShape(v any, sb *strings.Builder) {
+	switch t := v.(type) {
+	case []any:
+		sb.WriteString("[")
+		for _, e := range t {
+			jsonShape(e, sb)
+		}
+		sb.WriteString("]")
+	case json.Number:
+		sb.WriteString("n")
+	default:
+		fmt.Fprintf(sb, "?%T", v)
+	}
+}
+
+// modelShape is the nesting the GeoJSON coordinates of the model must have.
+func modelShape(g *ref.G) string {
+	var sb strings.Builder
+	pos := func(c ref.C) {
+		sb.WriteString("[")
+		sb.WriteString(strings.Repeat("n", len(c)))
+		sb.WriteString("]")
+	}
+	line := func(cs []ref.C) {
+		sb.WriteString("[")
+		for _, c := range cs {
+			pos(c)
+		}
+		sb.WriteString("]")
+	}
+	switch g.Kind {
+	case ref.Point:
+		pos(g.C0)
+	case ref.LineString, ref.LinearRing, ref.MultiPoint:
+		line(g.C1)
+	case ref.Polygon, ref.MultiLineString:
+		sb.WriteString("[")
+		for _, x := range g.C2 {
+			line(x)
+		}
+		sb.WriteString("]")
+	case ref.MultiPolygon:
+		sb.WriteString("[")
+		for _, x := range g.C3 {
+			sb.WriteString("[")
+			for _, y := range x {
+				line(y)
+			}
+			sb.WriteString("]")
+		}
+		sb.WriteString("]")
+	}
+	return sb.String()
 }
 
 func c18Run(c *engine.Ctx) {
